@@ -40,6 +40,10 @@ METHODS = ["auto", "linprog", "highs", "highs-ds", "highs-ipm", "SLSQP", "trust-
 LP_ONLY = {"linprog", "highs", "highs-ds", "highs-ipm"}
 
 
+def _raising_callback(*a, **k):
+    raise ValueError("callback stops the solve")
+
+
 def cells(tier):
     return [[r, d, m, s] for r in ROUTES for d in ("integer", "binary") for m in METHODS for s in (True, False)]
 
@@ -214,7 +218,12 @@ def check(case):
                     with warnings.catch_warnings():
                         warnings.simplefilter("ignore")
                         try:
-                            P.solve(method=method)
+                            if case["coef"][0] in (1, 3):
+                                # ... or a solve that FAILS in between (the caller's callback raises inside SciPy)
+                                P.solve(method=method, callback=_raising_callback)
+                                classes.append("failed-solve-in-between")
+                            else:
+                                P.solve(method=method)
                         except Exception:
                             pass
                 with seams.minimize_capture(run_real=True) as mc, seams.linprog_capture() as lc, warnings.catch_warnings():
@@ -238,6 +247,15 @@ def check(case):
                     return Result.violation("strict-variable-list", f"error lists {names}, discrete variables are {wantD}; {desc}", classes)
         else:
             for rnd in range(rounds):
+                if rnd == 1 and case["coef"][0] in (1, 3):
+                    # a solve that FAILS in between (the caller's callback raises inside SciPy): the next one still warns
+                    with warnings.catch_warnings():
+                        warnings.simplefilter("ignore")
+                        try:
+                            P.solve(method=method, callback=_raising_callback)
+                            classes.append("failed-solve-in-between")
+                        except Exception:
+                            pass
                 with warnings.catch_warnings(record=True) as rec:
                     warnings.simplefilter("always")
                     try:
